@@ -1,6 +1,8 @@
 (** Pins/C20.v — the statements of Properties/C20.v, pinned. *)
 From PdfV Require Import Base.Prelude Lex.Lexer Syn.Prim Gen.Generated
-     Import.Model Import.Spec Import.ImportProofs Import.Theorems Import.PageProofs Properties.C20.
+     Import.Model Import.Spec Import.ImportProofs Import.Theorems Import.PageProofs Import.PagePresent Import.GraphIso Import.Target Properties.C20.
+From PdfV Require Storage.Prim Storage.Model Storage.Proofs Storage.Builder Storage.Syntax Storage.Reload.
+From PdfV Require Syn.Serialize Syn.SerProofs Syn.Spells Syn.Parser.
 
 Check C20_closed : forall fetch g fuel roots rs s,
   import_roots fetch g fuel roots st0 = Ok (rs, s) ->
@@ -72,3 +74,80 @@ Check C20_tables :
 Check C20_old_order_refuted : forall fuel, clone_old self_loop fuel (PRef 1 0) st0 = OutOfFuel.
 
 Check C20_categories_refuted : ~ C20_full_statement.
+
+Check C20_graph_iso : forall fetch g fuel roots rs s,
+  import_roots fetch g fuel roots st0 = Ok (rs, s) ->
+  NoDup (map fst (memo s)) /\ NoDup (map snd (memo s)) /\
+  (forall r, reach g roots r <-> exists x, lookup (memo s) r = Some x) /\
+  (forall x, reach (out s) (new_refs rs) x <-> exists r, lookup (memo s) r = Some x) /\
+  (forall i, In i (map fst (out s)) <-> exists r, lookup (memo s) r = Some (i, 0)) /\ NoDup (map fst (out s)) /\
+  Forall2 (root_rel (memo s)) roots rs /\
+  (forall r x, lookup (memo s) r = Some x ->
+     exists v v', resolve g r = Ok v /\ resolve (out s) x = Ok v' /\ iso fetch (memo s) v v' /\ rename fetch (memo s) v = Some v').
+
+Check C20_edges : forall fetch g fuel roots rs s,
+  import_roots fetch g fuel roots st0 = Ok (rs, s) ->
+  forall r x r2, lookup (memo s) r = Some x ->
+  forall v v', resolve g r = Ok v -> resolve (out s) x = Ok v' ->
+    (has_ref v r2 -> exists x2, lookup (memo s) r2 = Some x2 /\ has_ref v' x2) /\
+    (forall x2, has_ref v' x2 -> exists r3, lookup (memo s) r3 = Some x2 /\ has_ref v r3).
+
+Check C20_copy_determined : forall fetch m v a b, iso fetch m v a -> iso fetch m v b -> a = b.
+
+Check C20_stream_equal : forall fetch g fuel roots rs s,
+  import_roots fetch g fuel roots st0 = Ok (rs, s) ->
+  forall r x d i gn st ln, lookup (memo s) r = Some x -> resolve g r = Ok (PStream d i gn st ln) ->
+    exists d' data, fetch i gn st ln = Ok data /\ resolve (out s) x = Ok (PStreamData d' data) /\
+                    map fst d' = map fst d /\ Forall2 (iso_entry fetch (memo s)) d d'.
+
+Check C20_dict_equal : forall fetch g fuel roots rs s,
+  import_roots fetch g fuel roots st0 = Ok (rs, s) ->
+  forall r x d, lookup (memo s) r = Some x -> resolve g r = Ok (PDict d) ->
+    exists d', resolve (out s) x = Ok (PDict d') /\ map fst d' = map fst d /\ Forall2 (iso_entry fetch (memo s)) d d'.
+
+Check C20_target_steps :
+  target false st0 = Storage.Builder.empty_storage /\
+  (forall c s m', 1 <= next s -> Storage.Model.promise (target c s) = (target c (mkSt m' (next s + 1) (out s)), (next s, 0))) /\
+  (forall c s m' id v, 1 <= id -> id < next s -> ~ In id (map fst (out s)) ->
+     Storage.Model.fulfill (target c s) (id, 0) v = Ok (target c (mkSt m' (next s) ((id, v) :: out s)), (id, 0))).
+
+Check C20_target_valid : forall fetch g fuel roots rs s,
+  import_roots fetch g fuel roots st0 = Ok (rs, s) ->
+  forall c, Storage.Proofs.wf_st (target c s) /\
+    lenN (Storage.Model.refs (target c s)) = next s /\
+    forall i, 1 <= i -> i < next s ->
+      nthN (Storage.Model.refs (target c s)) i = Some Storage.Model.XPromised /\
+      exists v, Storage.Model.clookup (Storage.Model.changes (target c s)) i = Some (v, 0) /\ g_find (out s) i = Some v.
+
+Check C20_reload_object : forall fetch g fuel roots rs s,
+  import_roots fetch g fuel roots st0 = Ok (rs, s) -> next s < 18446744073709551616 ->
+  forall cached member tr tr' S' S3,
+  Storage.Model.save Syn.Serialize.ser (target cached s) tr = Ok (S', tr', None) ->
+  Storage.Model.changes S3 = [] -> Storage.Model.backend S3 = Storage.Model.backend S' -> Storage.Model.start S3 = 0 ->
+  (forall i, i < lenN (Storage.Model.refs S') -> nthN (Storage.Model.refs S3) i = nthN (Storage.Model.refs S') i) ->
+  forall r x v, lookup (memo s) r = Some x -> resolve g r = Ok v ->
+    Syn.SerProofs.storable v -> Syn.Spells.vdepth v <= MAX_DEPTH ->
+    exists v', iso fetch (memo s) v v' /\ rename fetch (memo s) v = Some v' /\
+               forall g', Storage.Model.resolve Storage.Syntax.parse_obj member S3 (fst x, g') = Ok v'.
+
+Check C20_reload_stream : forall fetch g fuel roots rs s,
+  import_roots fetch g fuel roots st0 = Ok (rs, s) -> next s < 18446744073709551616 ->
+  forall cached member tr tr' S' S3,
+  Storage.Model.save Syn.Serialize.ser (target cached s) tr = Ok (S', tr', None) ->
+  Storage.Model.changes S3 = [] -> Storage.Model.backend S3 = Storage.Model.backend S' -> Storage.Model.start S3 = 0 ->
+  (forall i, i < lenN (Storage.Model.refs S') -> nthN (Storage.Model.refs S3) i = nthN (Storage.Model.refs S') i) ->
+  forall r x d i gn st ln, lookup (memo s) r = Some x -> resolve g r = Ok (PStream d i gn st ln) ->
+    Syn.SerProofs.storable (PDict d) -> Syn.Spells.vdepth (PDict d) <= MAX_DEPTH ->
+    dict_get Syn.Parser.key_Length d = Some (PInt (Z.of_N ln)) ->
+    exists d' data, fetch i gn st ln = Ok data /\ Forall2 (iso_entry fetch (memo s)) d d' /\ map fst d' = map fst d /\
+      (lenN data = ln -> forall g', exists st',
+         Storage.Model.resolve Storage.Syntax.parse_obj member S3 (fst x, g') = Ok (PStream d' (fst x) 0 st' ln) /\
+         Storage.Prim.raw_data (Storage.Model.backend S3) (PStream d' (fst x) 0 st' ln) = Some data).
+
+Check C20_page_present : forall fetch g fuel p s po s' P,
+  clone_page fetch g fuel p s = Ok (po, s') -> wf fetch g (fun _ => True) s -> pend s P ->
+  (forall op name cat v, In (UName op name) (pg_uses p) -> cat_of_op op = Some cat ->
+     dict_get name (cat_get (pg_res p) cat) = Some v ->
+     exists v0 v', src_value g cat v v0 /\ dict_get name (cat_get (po_res po) cat) = Some v' /\ iso fetch (memo s') v0 v') /\
+  (forall cat name v', dict_get name (cat_get (po_res po) cat) = Some v' ->
+     exists v v0, dict_get name (cat_get (pg_res p) cat) = Some v /\ src_value g cat v v0 /\ iso fetch (memo s') v0 v').
